@@ -505,4 +505,5 @@ func resetInterned() {
 	linTermOf = map[string]*Term{}
 	nonNilCache = map[string]bool{}
 	existsStore = map[string]*Formula{}
+	memphiInfo = map[string]memphiSite{}
 }
